@@ -257,7 +257,10 @@ def build():
                     expect_covers=['shutdown/returns']))
   return Property(
     'C20', units,
-    bounded=[Bounded('C20/native/token_bucket_cross_check', 'replay/bucket_native.py', ['--n', '2000', '--len', '5'], ['--n', '60000', '--len', '6'],
+    bounded=[Bounded('C20/native/writer_limits_cross_check', 'replay/writer_native.py', ['--what', 'limits', '--inflight', '0'], ['--what', 'limits', '--inflight', '1', '--thorough'],
+                     "the real writeForever / writeCachedDataPoints with a virtual clock and a storage double: 5 / 8 new metrics, create limits of 1 / 2 per minute and update limits of 1 / 2 per second (real TokenBuckets), with and without MAX_UPDATES_PER_SECOND_ON_SHUTDOWN, the stop (shutdownModifyUpdateSpeed) at every line step of the writer functions: the creates / writes in every window between two of them stay within rate x length + 2 x burst of the configured limits (the shutdown rate once it was set)",
+                     "the pairing of backend calls with granted tokens is discharged per iteration (C20/writer/*); this counts real backend calls against virtual time over whole runs, including the limit change at shutdown"),
+             Bounded('C20/native/token_bucket_cross_check', 'replay/bucket_native.py', ['--n', '2000', '--len', '5'], ['--n', '60000', '--len', '6'],
                      "the real TokenBucket on a virtual clock: every sequence of <= 5 (quick) / 6 (thorough) operations over {non-blocking / blocking acquisition, peek, advance 0 / 0.4 / 1 token's worth, limit change} for 4 (capacity, rate) pairs, plus 2000 / 60000 seeded random sequences of 5..80 operations for capacities 1..1000, rates 1/60..1000 per second, clock steps 0 .. 1e6 s: every window between two grants (without a limit change inside) holds at most rate x length + 2 x capacity grants, a blocking acquisition sleeps at most deficit / rate, a non-blocking one never sleeps, at most 2 x new capacity acquisitions succeed instantly after a limit change",
                      "floats instead of the reals of the proof (A-REAL): cross-check of the potential-function argument on IEEE doubles with tolerance 1e-6")],
     trusted_base=['A-ENGINE', 'A-SMT', 'A-REAL', 'A-CLOCK'],
